@@ -6,11 +6,13 @@
    emits for arithmetic, moves, literals and comparisons is encodable (sign-extended 32-bit
    immediates and displacements, `mov r64, imm64` for wide literals, no `imul [mem], reg`) for all
    operands the generic code generator can pass (fresh target).
-   CHECKED, not proved: label uniqueness / definedness and external symbols (Sem/X86Wf.asm_wf on the
-   implementation's output of every program of the run), and acceptance of the printed text by GNU
+   CHECKED (round 1; label uniqueness / definedness are PROVED in round 2, end of this file): labels and
+   external symbols (Sem/X86Wf.asm_wf on the implementation's output of every program of the run), and acceptance of the printed text by GNU
    as (native step).  The label-collision defect found by this check was repaired (fix: fd7ddb1). *)
-From Coq Require Import List ZArith NArith String.
+From Coq Require Import List ZArith NArith String Bool.
 From SCC Require Import Lang.AxSyn Model.Backend Model.X86 Sem.X86Sem Sem.X86Wf Proof.X86Wf Proof.X86Consts Generated.Constants.
+From SCC Require Model.A64 Model.RV Sem.A64Sem Sem.RVSem Sem.A64Wf Sem.RVWf.
+From SCC Require Import Sem.LabelGuard Proof.LabelStrings Proof.LabelGen Proof.LabelsX86 Proof.LabelsA64 Proof.LabelsRV Proof.LabelThms Proof.StrideA64RV.
 Import ListNotations.
 Open Scope Z_scope.
 
@@ -71,3 +73,171 @@ Proof.
   intro H. apply Forall_inv in H. cbv in H. discriminate H.
 Qed.
 Print Assumptions C14_x86_mul_to_spill_latent_refuted.
+
+(* ======================= round 2: labels as theorems; AArch64 and RISC-V =======================
+   PROVED now (Proof/LabelStrings.v, LabelGen.v, Labels{X86,A64,RV}.v, LabelThms.v, StrideA64RV.v):
+   (c) label uniqueness and definedness as theorems about the GENERIC code generator, for every back end
+       whose emitters obey the label discipline `labels_ok` (only b_label defines a label handed in by
+       the generic part; the memory operations define lab<k> for pairwise distinct k in (lc, lc'] and
+       reference only those; every other emitter defines nothing and references at most its argument),
+       instantiated for x86-64, AArch64 and RISC-V, and lifted to the complete routines
+       (asm_main / cleanup included).  The label counter is monotone and every number is used once;
+       the labels of a later call are fresh w.r.t. an earlier one.
+   (d) the guard Sem/LabelGuard.labels_guard (a boolean predicate, evaluated by the run-time check on
+       every program: tag guard / name-digits / noguard) cannot be dropped: C14_compile_labels_unique_refuted.
+       This is the known finding label-collision-name-digits (witnesses corpus/c14/, harness/src/c14probe.rs).
+   (e) jump-table stride for AArch64 (`B l`) and RISC-V (`JAL X0 l`): entry k at jump_length k bytes.
+   CHECKED, not proved, for AArch64 / RISC-V: encodability of immediates, offsets, shifts and register
+   classes (Sem/A64Wf.v, Sem/RVWf.v: asm_wf on the implementation's output, steps wf-a64 / wf-rv). *)
+
+Theorem C14_label_texts_not_injective :
+  pr (GCL "Aa" 18 "Bx_19_Cy") = pr (GCL "Aa_18_Bx" 19 "Cy") /\ pr (GCL "Aa" 18 "Bx_19") = pr (GTL "Aa_18_Bx" 19).
+Proof. exact pr_not_injective. Qed.
+Print Assumptions C14_label_texts_not_injective.
+
+(* the label texts are injective on the abstract labels a program inside the guard can generate *)
+Theorem C14_label_texts_injective_types :
+  forall g1 g2, in_univ ty_ok all_true g1 -> in_univ ty_ok all_true g2 -> pr g1 = pr g2 -> g1 = g2.
+Proof. exact pr_inj_types. Qed.
+Print Assumptions C14_label_texts_injective_types.
+Theorem C14_label_texts_injective_xtors :
+  forall g1 g2, in_univ all_true xtor_ok g1 -> in_univ all_true xtor_ok g2 -> pr g1 = pr g2 -> g1 = g2.
+Proof. exact pr_inj_xtors. Qed.
+Print Assumptions C14_label_texts_injective_xtors.
+
+(* the generic code generator, any back end with the label discipline: structure of the defined labels
+   WITHOUT any assumption on digits in names (abstract labels are duplicate-free; numbers in (lc, lc']) *)
+Theorem C14_translate_abstract_labels_unique :
+  forall (Code Temp : Type) (B : backend Code Temp) (cdefs crefs : Code -> list string),
+    labels_ok B cdefs crefs ->
+    forall (okS okX : string -> bool) (types : list tydecl) (ds : list def) (lc : N) (c : list Code) (lc' : N),
+      forallb (fun d => names_ok okS okX (dbody d)) ds = true -> NoDup (dnames ds) ->
+      translate B types ds lc = Ok (c, lc') ->
+      translate_inv cdefs okS okX (dnames ds) lc c lc'.
+Proof. exact @translate_defs. Qed.
+Print Assumptions C14_translate_abstract_labels_unique.
+
+Theorem C14_compile_labels_unique :
+  forall (Code Temp : Type) (B : backend Code Temp) (cdefs crefs : Code -> list string),
+    labels_ok B cdefs crefs ->
+    forall (p : prog) (lc : N) (c : list Code) (n : nat) (lc' : N),
+      labels_guard p = true -> compile B p lc = Ok (c, n, lc') ->
+      NoDup (LabelGen.defs cdefs c) /\ (lc <= lc')%N /\
+      ~ In "cleanup"%string (LabelGen.defs cdefs c) /\ ~ In "asm_main"%string (LabelGen.defs cdefs c).
+Proof. exact @compile_labels_unique. Qed.
+Print Assumptions C14_compile_labels_unique.
+
+Theorem C14_compile_refs_defined :
+  forall (Code Temp : Type) (B : backend Code Temp) (cdefs crefs : Code -> list string),
+    labels_ok B cdefs crefs ->
+    forall (p : prog) (lc : N) (c : list Code) (n : nat) (lc' : N),
+      calls_guard p = true -> compile B p lc = Ok (c, n, lc') ->
+      forall l, In l (LabelGen.refs crefs c) -> In l (LabelGen.defs cdefs c) \/ l = "cleanup"%string.
+Proof. exact @compile_refs_defined. Qed.
+Print Assumptions C14_compile_refs_defined.
+
+(* the counter: labels generated by a later call are different from those of an earlier one *)
+Theorem C14_labels_of_later_call_fresh :
+  forall (Code Temp : Type) (B : backend Code Temp) (cdefs crefs : Code -> list string),
+    labels_ok B cdefs crefs ->
+    forall types1 ds1 lc1 c1 lc1' types2 ds2 lc2 c2 lc2',
+      ((guard_types ds1 && guard_types ds2) || (guard_xtors ds1 && guard_xtors ds2))%bool = true ->
+      translate B types1 ds1 lc1 = Ok (c1, lc1') -> translate B types2 ds2 lc2 = Ok (c2, lc2') -> (lc1' <= lc2)%N ->
+      forall l, In l (LabelGen.defs cdefs c1) -> In l (LabelGen.defs cdefs c2) ->
+      exists name, l = (name ++ "_")%string /\ lower_first name = true.
+Proof. exact @labels_of_later_call_fresh. Qed.
+Print Assumptions C14_labels_of_later_call_fresh.
+
+(* the three back ends obey the discipline *)
+Theorem C14_x86_label_discipline : labels_ok x86_backend xdefs X86Wf.referenced.
+Proof. exact x86_labels_ok. Qed.
+Print Assumptions C14_x86_label_discipline.
+Theorem C14_a64_label_discipline : labels_ok A64.a64_backend A64Wf.all_defs A64Wf.referenced.
+Proof. exact a64_labels_ok. Qed.
+Print Assumptions C14_a64_label_discipline.
+Theorem C14_rv_label_discipline : labels_ok RV.rv_backend RVWf.all_defs RVWf.referenced.
+Proof. exact rv_labels_ok. Qed.
+Print Assumptions C14_rv_label_discipline.
+
+(* the complete routines: every label defined once, every referenced label defined *)
+Theorem C14_x86_routine_labels :
+  forall (p : prog) (lc : N) (r : list xcode) (n : nat) (lc' : N),
+    labels_guard p = true -> calls_guard p = true -> x86_compile p lc = Ok (r, n, lc') ->
+    NoDup (LabelGen.defs xdefs r) /\ incl (LabelGen.refs X86Wf.referenced r) (LabelGen.defs xdefs r) /\ (lc <= lc')%N.
+Proof. exact x86_routine_labels. Qed.
+Print Assumptions C14_x86_routine_labels.
+Theorem C14_a64_routine_labels :
+  forall (p : prog) (lc : N) (r : list A64.acode) (n : nat) (lc' : N),
+    labels_guard p = true -> calls_guard p = true -> A64.a64_compile p lc = Ok (r, n, lc') ->
+    NoDup (LabelGen.defs A64Wf.all_defs r) /\ incl (LabelGen.refs A64Wf.referenced r) (LabelGen.defs A64Wf.all_defs r) /\ (lc <= lc')%N.
+Proof. exact a64_routine_labels. Qed.
+Print Assumptions C14_a64_routine_labels.
+Theorem C14_rv_routine_labels :
+  forall (p : prog) (lc : N) (c : list RV.rcode) (n : nat) (lc' : N),
+    labels_guard p = true -> calls_guard p = true -> RV.rv_compile p lc = Ok (c, n, lc') ->
+    NoDup ("cleanup"%string :: LabelGen.defs RVWf.all_defs c)
+    /\ incl (LabelGen.refs RVWf.referenced c) ("cleanup"%string :: LabelGen.defs RVWf.all_defs c) /\ (lc <= lc')%N.
+Proof. exact rv_routine_labels. Qed.
+Print Assumptions C14_rv_routine_labels.
+
+(* without the name-digits clause of the guard the statement is false *)
+Theorem C14_compile_labels_unique_refuted :
+  unguarded_labels_guard collide_prog = true /\ calls_guard collide_prog = true /\
+  exists c n lc', compile x86_backend collide_prog 0 = Ok (c, n, lc') /\ ~ NoDup (LabelGen.defs xdefs c).
+Proof. exact compile_labels_unique_refuted. Qed.
+Print Assumptions C14_compile_labels_unique_refuted.
+(* the hypotheses are satisfiable: definitions named lab3 and cleanup, a type instance List[i64] *)
+Theorem C14_labels_guard_satisfiable :
+  labels_guard distinct_prog = true /\ calls_guard distinct_prog = true /\
+  LabelGen.defs xdefs (match compile x86_backend distinct_prog 7 with Ok (c, _, _) => c | Err _ => [] end)
+  = ["main_"; "Aa_8"; "Aa_8_Bx"; "List_i64_9"; "List_i64_9_Cy"; "lab3_"; "lab10"; "cleanup_"]%string.
+Proof. exact labels_guard_satisfiable. Qed.
+Print Assumptions C14_labels_guard_satisfiable.
+
+(* jump-table stride, AArch64 and RISC-V *)
+Theorem C14_a64_jump_table_stride :
+  forall (ls : list string) (a : Z) (k : nat),
+    (k < List.length ls)%nat ->
+    nth k (A.addrs (map A64.B ls) a) 0 = a + A64.jump_length (N.of_nat k).
+Proof. exact A.addrs_table. Qed.
+Print Assumptions C14_a64_jump_table_stride.
+Theorem C14_a64_table_entries_are_fixed_jumps :
+  forall (cls : list clause) (base : string),
+    code_table A64.a64_backend cls base = map A64.B (map (fun c => (base +++ "_" +++ show_ident (cl_xtor c))%string) cls).
+Proof. exact A.table_is_fixed_jumps. Qed.
+Print Assumptions C14_a64_table_entries_are_fixed_jumps.
+Theorem C14_a64_image_uses_these_addresses :
+  forall (cs : list A64.acode) (i : positive) (a : Z) (im : A64Sem.image),
+    (forall j, (i <= j)%positive -> A64Sem.PM.find j (A64Sem.addr_of im) = None) ->
+    forall k, (k < List.length cs)%nat ->
+      A64Sem.PM.find (Pos.of_nat (Pos.to_nat i + k)) (A64Sem.addr_of (A64Sem.build cs i a im)) = Some (nth k (A.addrs cs a) 0).
+Proof. exact A.build_addr_of. Qed.
+Print Assumptions C14_a64_image_uses_these_addresses.
+Theorem C14_rv_jump_table_stride :
+  forall (ls : list string) (a : Z) (k : nat),
+    (k < List.length ls)%nat ->
+    nth k (R.addrs (map (RV.JAL RV.ZERO) ls) a) 0 = a + RV.jump_length (N.of_nat k).
+Proof. exact R.addrs_table. Qed.
+Print Assumptions C14_rv_jump_table_stride.
+Theorem C14_rv_table_entries_are_fixed_jumps :
+  forall (cls : list clause) (base : string),
+    code_table RV.rv_backend cls base = map (RV.JAL RV.ZERO) (map (fun c => (base +++ "_" +++ show_ident (cl_xtor c))%string) cls).
+Proof. exact R.table_is_fixed_jumps. Qed.
+Print Assumptions C14_rv_table_entries_are_fixed_jumps.
+Theorem C14_rv_image_uses_these_addresses :
+  forall (cs : list RV.rcode) (i : positive) (a : Z) (im : RVSem.image),
+    (forall j, (i <= j)%positive -> RVSem.PM.find j (RVSem.addr_of im) = None) ->
+    forall k, (k < List.length cs)%nat ->
+      RVSem.PM.find (Pos.of_nat (Pos.to_nat i + k)) (RVSem.addr_of (RVSem.build cs i a im)) = Some (nth k (R.addrs cs a) 0).
+Proof. exact R.build_addr_of. Qed.
+Print Assumptions C14_rv_image_uses_these_addresses.
+
+(* what the immediate classes of the AArch64 checker mean *)
+Theorem C14_a64_imm12_is_the_add_sub_immediate :
+  forall i, A64Wf.imm12 i = true <-> (0 <= i <= 4095 \/ exists h, 0 <= h <= 4095 /\ i = 4096 * h).
+Proof. exact A.imm12_spec. Qed.
+Print Assumptions C14_a64_imm12_is_the_add_sub_immediate.
+Theorem C14_a64_uoff8_is_the_scaled_unsigned_offset :
+  forall i, A64Wf.uoff8 i = true <-> exists q, 0 <= q <= 4095 /\ i = 8 * q.
+Proof. exact A.uoff8_spec. Qed.
+Print Assumptions C14_a64_uoff8_is_the_scaled_unsigned_offset.
